@@ -139,9 +139,29 @@ fn hash_ms(h: &mut Fnv, ms: impl Iterator<Item = (usize, usize, usize)>) {
     h.u64(0xE0F);
 }
 
+thread_local! {
+    /// Every third input is searched through this reusable per-thread buffer,
+    /// so that over time *different* inputs appear at the *same* address with
+    /// possibly the same length (hidden state keyed by haystack address or
+    /// length would then return a stale answer).
+    static SCRATCH: std::cell::RefCell<Vec<u8>> = std::cell::RefCell::new(Vec::new());
+}
+
 /// Execute one operation and hash everything it returned.
 pub fn do_op(w: &World, si: usize, op: Op, ii: usize) -> u64 {
-    let hay = &w.inputs[ii];
+    if ii % 3 == 0 {
+        SCRATCH.with(|s| {
+            let mut s = s.borrow_mut();
+            s.clear();
+            s.extend_from_slice(&w.inputs[ii]);
+            do_op_on(w, si, op, ii, &s[..])
+        })
+    } else {
+        do_op_on(w, si, op, ii, &w.inputs[ii])
+    }
+}
+
+fn do_op_on(w: &World, si: usize, op: Op, ii: usize, hay: &[u8]) -> u64 {
     let mut h = Fnv::new();
     h.str(op.name());
     match &w.searchers[si] {
